@@ -92,9 +92,10 @@ def check(ctx):
         "nesting assumed (documented): bg within fg within hh; wthh within hh; bg within wthh; sn within ehe; eg within fg - nothing else (GEP-2: groups are not nested in general)",
         "input columns with a group suffix are constant within that group (enforced for exogenous groups by the interface)",
     ]
-    from .c01 import group_id_arithmetic
+    from .c01 import group_id_arithmetic, index_spaces
 
     group_id_arithmetic(ctx, repo, "L-id")
+    index_spaces(ctx, repo, "IX")
     ctx.rule("L", "every reachable scalar rule named <x>_<g> consumes only columns provably constant within g (group aggregates to g or an enclosing unit, g-level inputs, parameter-only rules, rules that are themselves g-constant)")
     iv = s.em.intervals(datetime.date(1980, 1, 1))
     dates = sorted({f for f, _ in iv} | ({l for _, l in iv} if ctx.tier == "thorough" else set()))
